@@ -9653,6 +9653,11 @@ class NetCDFRead(IORead):
             if cell_dimension == 1:
                 data = data.transpose()
 
+            if start_index:
+                # Zero-based node identifiers, as for point cells,
+                # cell connectivities and bounds
+                data._set_Array(data.array - start_index, copy=False)
+
         # Initialise the domain topology variable
         domain_topology = self.implementation.initialise_DomainTopology(
             cell=cell,
